@@ -163,9 +163,157 @@ mod verif_kani {
         core::mem::forget(res);
     }
 
-    // ------------------------------------------------------------------ C15: Display
+    // ------------------------------------------------------------------ C15: FromStr, modular
+    // callee contract of hex::decode_to_slice(data, out) (dependency): Ok(()) and `out` = the decoded bytes
+    // iff `data` is exactly 2*|out| hex digits of either case, Err otherwise.  The stub returns any result the
+    // contract allows for a caller that cannot see the digits (symbolic verdict + symbolic bytes) and records
+    // its argument; the real function is checked against the same contract by c15_hex_contract_*.
+    static mut HEX_CALLS: usize = 0;
+    static mut HEX_IN: [u8; 140] = [0; 140];
+    static mut HEX_IN_LEN: usize = 0;
+    static mut HEX_OK: bool = false;
+    static mut HEX_OUT: [u8; 65] = [0; 65];
+    fn hex_decode_contract<T: AsRef<[u8]>>(data: T, out: &mut [u8]) -> Result<(), hex::FromHexError> {
+        let d = data.as_ref();
+        unsafe {
+            HEX_CALLS += 1;
+            HEX_IN_LEN = d.len();
+            let mut i = 0;
+            while i < d.len() && i < 140 {
+                HEX_IN[i] = d[i];
+                i += 1;
+            }
+        }
+        let ok: bool = kani::any();
+        if ok && d.len() == 2 * out.len() && out.len() == 65 {
+            let bytes: [u8; 65] = kani::any();
+            out.copy_from_slice(&bytes);
+            unsafe {
+                HEX_OK = true;
+                HEX_OUT = bytes;
+            }
+            Ok(())
+        } else {
+            Err(hex::FromHexError::InvalidStringLength)
+        }
+    }
+
+    fn from_str_modular_at<const L: usize>() {
+        let t: [u8; L] = kani::any();
+        kani::assume(t.iter().all(|b| *b < 0x80));
+        let s = unsafe { core::str::from_utf8_unchecked(&t) };
+        let res = Signature::from_str(s);
+        let (calls, in_len, ok, d) = unsafe { (HEX_CALLS, HEX_IN_LEN, HEX_OK, HEX_OUT) };
+        // the text handed to the hex decoder is the input with one optional leading "0x" removed
+        let off = if L >= 2 && t[0] == b'0' && t[1] == b'x' { 2 } else { 0 };
+        assert!(calls == 1, "from_str: decodes exactly once");
+        assert!(in_len == L - off, "from_str: optional 0x prefix removed, nothing else");
+        let mut i = 0;
+        while i < in_len {
+            assert!(unsafe { HEX_IN[i] } == t[off + i], "from_str: payload handed to the decoder unchanged");
+            i += 1;
+        }
+        let denotes = ok && (d[64] == 27 || d[64] == 28) && valid_scalar(&d[0..32]) && valid_scalar(&d[32..64]);
+        match &res {
+            Ok(sig) => {
+                assert!(denotes, "from_str: accepted text does not denote a signature (v not 27/28, or r/s out of [1, n-1])");
+                assert!(sig.r().to_be_bytes()[..] == d[0..32], "from_str: r is the first 32 bytes");
+                assert!(sig.s().to_be_bytes()[..] == d[32..64], "from_str: s is the second 32 bytes");
+                assert!(sig.y_parity() == U256::new((d[64] - 27) as u128), "from_str: yParity == v - 27");
+            }
+            Err(_) => assert!(!denotes, "from_str: text that denotes a signature was rejected"),
+        }
+        kani::cover!(res.is_ok());
+        kani::cover!(res.is_err() && ok);
+        core::mem::forget(res);
+    }
     #[kani::proof]
     #[kani::unwind(134)]
+    #[kani::stub(hex::decode_to_slice, hex_decode_contract)]
+    #[kani::stub(std::backtrace::Backtrace::capture, crate::verif_common::no_backtrace)]
+    #[kani::stub(alloc::fmt::format, crate::verif_common::no_format)]
+    fn c15_from_str_modular_130() {
+        from_str_modular_at::<130>()
+    }
+    #[kani::proof]
+    #[kani::unwind(134)]
+    #[kani::stub(hex::decode_to_slice, hex_decode_contract)]
+    #[kani::stub(std::backtrace::Backtrace::capture, crate::verif_common::no_backtrace)]
+    #[kani::stub(alloc::fmt::format, crate::verif_common::no_format)]
+    fn c15_from_str_modular_132() {
+        from_str_modular_at::<132>()
+    }
+
+    /// hex::decode_to_slice against the contract assumed above, for |out| = N
+    fn hex_contract_at<const N: usize, const L: usize>() {
+        let t: [u8; L] = kani::any();
+        let mut out = [0u8; N];
+        let res = hex::decode_to_slice(&t[..], &mut out);
+        let mut all_hex = L == 2 * N;
+        let mut d = [0u8; N];
+        if L == 2 * N {
+            let mut i = 0;
+            while i < N {
+                match (hexval(t[2 * i]), hexval(t[2 * i + 1])) {
+                    (Some(h), Some(l)) => d[i] = (h << 4) | l,
+                    _ => all_hex = false,
+                }
+                i += 1;
+            }
+        }
+        assert!(res.is_ok() == all_hex, "hex::decode_to_slice: Ok iff exactly 2*|out| hex digits");
+        if all_hex {
+            assert!(out == d, "hex::decode_to_slice: decoded bytes");
+        }
+        kani::cover!(res.is_ok());
+        kani::cover!(res.is_err());
+    }
+    #[kani::proof]
+    #[kani::unwind(8)]
+    fn c15_hex_contract_n2() {
+        hex_contract_at::<2, 4>()
+    }
+    #[kani::proof]
+    #[kani::unwind(8)]
+    fn c15_hex_contract_n2_short() {
+        hex_contract_at::<2, 3>()
+    }
+    #[kani::proof]
+    #[kani::unwind(8)]
+    fn c15_hex_contract_n2_long() {
+        hex_contract_at::<2, 6>()
+    }
+    #[kani::proof]
+    #[kani::unwind(134)]
+    fn c15_hex_contract_n65() {
+        hex_contract_at::<65, 130>()
+    }
+
+    // ------------------------------------------------------------------ C15: Display
+    // callee contract of <ethnum::U256 as LowerHex>::fmt (dependency) under the flags this crate uses
+    // ("{:0Wx}"): lower-case hex digits of the value, zero padded to the width.
+    fn lowerhex_contract(v: &U256, f: &mut core::fmt::Formatter<'_>) -> core::fmt::Result {
+        let b = v.to_be_bytes();
+        let mut digits = [0u8; 64];
+        let mut i = 0;
+        while i < 32 {
+            digits[2 * i] = hexdigit(b[i] >> 4);
+            digits[2 * i + 1] = hexdigit(b[i] & 15);
+            i += 1;
+        }
+        let mut first = 0;
+        while first < 63 && digits[first] == b'0' {
+            first += 1;
+        }
+        let width = f.width().unwrap_or(0);
+        let n = if 64 - first > width { 64 - first } else { width };
+        let n = if n > 64 { 64 } else { n };
+        f.write_str(unsafe { core::str::from_utf8_unchecked(&digits[64 - n..]) })
+    }
+
+    #[kani::proof]
+    #[kani::unwind(66)]
+    #[kani::stub(<ethnum::U256 as core::fmt::LowerHex>::fmt, lowerhex_contract)]
     fn c15_display_exact() {
         let r: [u8; 32] = kani::any();
         let s: [u8; 32] = kani::any();
